@@ -207,7 +207,7 @@ def truthy : Val → Bool
 functions; every theorem treats `predEval` as an arbitrary pure function of the value (it is never
 unfolded in `Theorems/C12.lean`).
   0 `\x -> x > 0`   1 `\x -> len(x) == 2`   2 `\x -> 1`   3 `\x -> 0`   4 `\x -> x is int`
-  5 `\x -> throw "no"`   (anything else: raises) -/
+  5 `\x -> throw "no"`   6 `\x -> x is list and len(x) > 0 and x[0] is int`   (anything else: raises) -/
 def predEval (p : Nat) (v : Val) : Out Bool :=
   match p with
   | 0 => match numReals v with
@@ -229,6 +229,8 @@ def predEval (p : Nat) (v : Val) : Out Bool :=
   | 2 => .ok true
   | 3 => .ok false
   | 4 => .ok (match v with | .int _ => true | _ => false)
+  | 5 => .throw
+  | 6 => .ok (match v with | .list (.int _ :: _) => true | _ => false)
   | _ => .throw
 
 /-- `is_type` (eval.rs ~3256), post-F2: with the `Rational` and `StructInstance` arms. -/
@@ -396,6 +398,19 @@ def setIndex : Val → List Val → Option Val → Out Val
           | some old => (setIndex old rest value).map fun nv => .dict ks (listSet vs k nv)
           | none => .throw
         | none => .throw
+    | .str cs =>
+      -- `(Seq::String(s), Index(i)) if rest.is_empty()`: one byte is overwritten by a one-byte
+      -- string (modelled for ASCII strings; the differential run keeps history strings ASCII)
+      if !rest.isEmpty then .throw else
+      match value with
+      | none => .ok (.str cs)              -- LHS-dropping: nothing to do
+      | some (.str [c]) =>
+        if c < 128 ∧ cs.all (· < 128) then
+          match pyIndex cs.length i with
+          | some k => .ok (.str (listSet cs k c))
+          | none => .throw
+        else .throw
+      | some _ => .throw
     | _ => .throw
 
 /-- `index_or_slice` for reading along an `Index` path (lists and dicts) -/
